@@ -68,7 +68,9 @@ def grid_round(dmax, dmax_m):
 def round_(ob, d, ttm, rmax):
     from . import hooks
     ex = ob.ex
-    hooks.install(ex)
+    # orders >= 5: SVD() is used through its contract (proved for both branches in C01 SVD.contract and re-proved below);
+    # this removes the tall/wide fork at every truncation
+    hooks.install(ex, svd=(d >= 5))
     x = ob.tt('x', d, ttm=ttm, dtype='float64')
     F0 = z3.Real('normx2')             # ||val(x)||_F^2
     ex.assume_ghost(F0 >= 0)
@@ -240,6 +242,7 @@ def lr_orthogonal(ob, d, ttm):
 # the contract of rank_chop is USED by round_tt (modular verification): it is re-proved here, so that a change inside
 # rank_chop that breaks its contract is reported under C02 as well
 from . import c01 as _c01   # noqa: E402
+scenario('C02', 'uses.SVD_contract', 'torchtt._decomposition.SVD', quick=[dict()], replay=None)(_c01.svd_contract)
 scenario('C02', 'uses.rank_chop_contract', 'torchtt._decomposition.rank_chop', quick=[dict()], replay='rank_chop')(_c01.rank_chop)
 
 
